@@ -115,10 +115,29 @@ def specStep (sp : Spec) (now : Nat) : Op → Obs → Bool × Spec
   | .restart, .done => (true, { sp with fails := FMap.empty })
   | _, _ => (false, sp)
 
-/-- `specOK`: the verdict of the monitor for one observed step (vacuous past
-the uint32 horizon). -/
+/-- the safety half of the session clause: authenticated ONLY if created, not
+logged out, and within `ttl` of creation / last use — in real (unbounded) time -/
+def sessionSafe (sp : Spec) (now : Nat) (tok : Nat) (b : Bool) : Bool :=
+  match sp.toks tok with
+  | none => !b
+  | some i => !b || (!i.loggedOut && decide (nowS now < i.lastOK + sp.ttl))
+
+/-- `specOK`: the verdict of the monitor for one observed step.  Past the
+uint32 horizon only the "must still authenticate" half of the session clause
+is dropped (a session whose stored expiry wrapped is lost early); "authenticates
+ONLY until expiry or logout" and the throttle clauses are checked always. -/
 def specOK (sp : Spec) (now : Nat) (op : Op) (obs : Obs) : Bool :=
-  !noWrap sp now || (specStep sp now op obs).1
+  if noWrap sp now then (specStep sp now op obs).1
+  else match op, obs with
+    | .request tok, .auth b => sessionSafe sp now tok b
+    | _, _ => (specStep sp now op obs).1
+
+/-- The model with fallible sessions.db writes. -/
+def stepF (st : St) (now : Nat) (dbOK : Bool) : Op → Obs × St
+  | .login req good user => let r := handleLoginF st now req good user dbOK; (.login r.1, r.2)
+  | .request tok => let r := checkSessionF st now tok dbOK; (.auth (r.1 == .ok), r.2)
+  | .logout tok => (.done, logoutF st tok dbOK)
+  | .restart => (.done, restart st now)
 
 /-- A timed history: operations separated by clock advances. -/
 inductive Ev where
